@@ -12,7 +12,7 @@ THEOREMS = [
     'SF.C04.slice_positions_in_range', 'SF.C04.slice_positions_arith', 'SF.C04.slice_positions_complete_pos',
     'SF.C04.slice_positions_strict', 'SF.C04.int_position', 'SF.C04.mask_positions',
     'SF.C04.key_positions_in_range', 'SF.C04.list_positions',
-    'SF.Bridge.inclusive_bridge', 'SF.Bridge.ascending_bridge', 'SF.Bridge.ascending_bridge_zero', 'SF.Bridge.cols_bridge',
+    'SF.Bridge.inclusive_bridge', 'SF.Bridge.ascending_bridge', 'SF.Bridge.cols_bridge',
 ]
 PARTIAL = []
 CORR_ONLY = ['Frame/Series .iloc with every key kind on both axes (model: Key.positions + list selection in the harness)',
@@ -104,7 +104,7 @@ def evaluate(ctx, c, outs):
             fails.append(Failure('corr', f'slice.positions {c["s"]} n={n}: model {outs[0]} vs numpy {real}', c))
         try:
             ra = sl_wire(slice_to_ascending_slice(s, n))
-        except ZeroDivisionError:
+        except (ZeroDivisionError, ValueError):
             ra = 'err value'
         if model_on:
             if outs[2] != ra:
